@@ -175,6 +175,15 @@ class Module:
                 for alias in node.names:
                     self.imports[alias.asname or alias.name] = ('.' * node.level + (node.module or ''), alias.name)
 
+    def reindex(self):
+        """Rebuild parent links and the function / class tables after the tree was rewritten."""
+        self.parent = {}
+        self.functions = {}
+        self.classes = {}
+        self.constants = {}
+        self.imports = {}
+        self._index()
+
     # -- navigation ---------------------------------------------------------
     def func(self, qualname):
         try:
@@ -264,6 +273,13 @@ class SourceIndex:
         self._nx_graph = None
         # alpha-normalise local names towards the names the rule sets use (vstat/alpha.py)
         self.renamed = {}
+        self.inlined = {}
+        if not os.environ.get('VSTAT_NO_INLINE'):
+            from . import inline
+            for rel, module in self.modules.items():
+                done = inline.normalise_module(module)
+                if done:
+                    self.inlined[rel] = done
         if not os.environ.get('VSTAT_NO_ALPHA'):
             from . import alpha
             for rel, module in self.modules.items():
